@@ -1,5 +1,7 @@
 package bebop
 
+import "strings"
+
 func simpleGoString(simple string, settings GenerateSettings) string {
 	if simple == typeGUID {
 		return "[16]byte"
@@ -20,10 +22,16 @@ func (ft FieldType) goString(settings GenerateSettings) string {
 	if ft.Array != nil {
 		return "[]" + ft.Array.goString(settings)
 	}
-	if settings.PrivateDefinitions {
-		return unexposeName(simpleGoString(ft.Simple, settings))
+	name := simpleGoString(ft.Simple, settings)
+	if isPrimitiveType(ft.Simple) {
+		return name
 	}
-	return simpleGoString(ft.Simple, settings)
+	// user defined types are declared under their exposed (or, for private
+	// definitions, unexposed) name, whatever case the schema spelled them in.
+	if namespace, bare, ok := strings.Cut(name, "."); ok {
+		return namespace + "." + exposeName(bare, GenerateSettings{})
+	}
+	return exposeName(name, settings)
 }
 
 func (mt MapType) goString(settings GenerateSettings) string {
